@@ -141,6 +141,7 @@ func c10Run(w *W, c Case) {
 	case "jie":
 		y, base := c.A[0], c.A[1]
 		w.Class(fmt.Sprintf("jie/base%d", base))
+		historyTouch(w, y)
 		tbl := calendar.NewSolarFromYmd(y, 6, 15).GetLunar().GetJieQiTable()
 		lo := ref.Stamp{Y: y, M: 1, D: 1}.Secs()
 		if y == base {
